@@ -72,7 +72,9 @@ def gen_chain(rng):
     sc = {"kind": "chain", "rows": rows, "members": members, "suffix": s, "method": rng.choice(["collect_paths", "next_paths_collect"])}
     if sc["method"] == "next_paths_collect" and rng.random() < 0.4:
         # the caller pulls some lines, performs a whole run of another group on the same instance, then drains the chain
-        sc["interrupt"] = {"after": rng.randint(1, 4), "method": rng.choice(["collect_paths", "fast_forward_paths", "collect_by_line", "next_paths_collect"])}
+        sc["interrupt"] = {"after": rng.randint(1, 4), "method": rng.choice(["collect_paths", "fast_forward_paths", "collect_by_line", "next_paths_collect"]),
+                           # ... or ANOTHER instance runs this very chain over another file in between
+                           "who": rng.choice(["same_instance_other_group", "same_instance_other_group", "other_instance_same_group"])}
     return sc
 
 
@@ -285,13 +287,27 @@ def _chain(sc, out, w):
     def on_yield(line):
         seen["n"] += 1
         if intr and seen["n"] == intr["after"]:
+            if intr.get("who") == "other_instance_same_group":
+                cs2 = ops.new_csvpaths()
+                w.write_csv("src/f2.csv", [sc["rows"][0]] + [r for r in reversed(sc["rows"][1:]) if r])
+                with ops.quiet():
+                    cs2.file_manager.add_named_file(name="f2", path="src/f2.csv")
+                try:
+                    ops.run_group(cs2, "collect_paths", "g", fname="f2")
+                except Exception as e:  # noqa: BLE001
+                    if not ops.in_repo(e):
+                        raise  # (the chain may abort over the other file for the known empty-predecessor reason)
+                out.runs += 1
+                out.fault("interleaved_run")
+                out.probe("another instance ran the same chain over another file while the chain was part-way")
+                return
             ops.run_group(cs, intr["method"], "other")
             out.runs += 1
             out.fault("interleaved_run")
             out.probe("another run on the same instance while the chain was part-way")
 
     if intr:
-        where += f" [after {intr['after']} line(s) the caller ran group 'other' by {intr['method']} on the same instance, then went on]"
+        where += f" [after {intr['after']} line(s) " + ("another instance ran this chain over another file" if intr.get("who") == "other_instance_same_group" else f"the caller ran group 'other' by {intr['method']} on the same instance") + ", then the caller went on]"
     try:
         caller = ops.run_group(cs, sc["method"], "g", on_yield=on_yield)
     except Exception as e:  # noqa: BLE001
@@ -348,6 +364,7 @@ def _chain(sc, out, w):
     out.sig = ["chain", k, sc["suffix"], sc["method"], [len(e) if e is not None else None for e in expected][:4]]
     out.nontrivial = flowed
     out.probe("another run on the same instance while the chain was part-way", False)
+    out.probe("another instance ran the same chain over another file while the chain was part-way", False)
     out.probe("member without source-mode after one with it", any(members[j].get("modes") and not members[j + 1].get("modes") for j in range(k - 1)))
     out.probe("predecessor dropped the header record", any(e and e[0] and e[0][0] != "id" for e in expected[:-1] if e))
     out.log(expected, len(out.violations))
